@@ -377,6 +377,62 @@ func genLeaf(r *rand.Rand, big bool) *sunlight.LogEntry {
 	return e
 }
 
+// craftLeaf encodes a tile leaf by hand with an arbitrary extensions blob and fingerprint blob, so that
+// every length-prefixed field can be given well-formed but non-canonical contents
+func craftLeaf(e *sunlight.LogEntry, ext, fps []byte) []byte {
+	var b []byte
+	be := func(v uint64, k int) {
+		for i := k - 1; i >= 0; i-- {
+			b = append(b, byte(v>>(8*uint(i))))
+		}
+	}
+	be(uint64(e.Timestamp), 8)
+	if e.IsPrecert {
+		be(1, 2)
+		b = append(b, e.IssuerKeyHash[:]...)
+	} else {
+		be(0, 2)
+	}
+	be(uint64(len(e.Certificate)), 3)
+	b = append(b, e.Certificate...)
+	be(uint64(len(ext)), 2)
+	b = append(b, ext...)
+	if e.IsPrecert {
+		be(uint64(len(e.PreCertificate)), 3)
+		b = append(b, e.PreCertificate...)
+	}
+	be(uint64(len(fps)), 2)
+	b = append(b, fps...)
+	return b
+}
+
+func extBlobs(r *rand.Rand, idx int64) [][]byte {
+	li := []byte{0, 0, 5, byte(idx >> 32), byte(idx >> 24), byte(idx >> 16), byte(idx >> 8), byte(idx)}
+	unk := []byte{byte(1 + r.Intn(255)), 0, 2, 7, 7}
+	cat := func(xs ...[]byte) []byte {
+		var o []byte
+		for _, x := range xs {
+			o = append(o, x...)
+		}
+		return o
+	}
+	return [][]byte{
+		li,                           // canonical
+		cat(unk, li),                 // unknown extension first
+		cat(li, unk),                 // second extension after leaf_index
+		cat(li, []byte{9}),           // trailing garbage
+		cat(li, li),                  // leaf_index twice
+		{0, 0, 4, 1, 2, 3, 4},        // short body
+		{0, 0, 6, 0, 0, 0, 0, 0, 1},  // long body
+		{0, 0, 5, 1, 2, 3},           // truncated body
+		{1, 0, 5, 0, 0, 0, 0, 1},     // wrong type only
+		unk,                          // no leaf_index at all
+		{0},                          // lone type byte
+		{0, 0},                       // truncated length
+		{},                           // empty = archival
+	}
+}
+
 func mutate(r *rand.Rand, b []byte) []byte {
 	c := append([]byte{}, b...)
 	if len(c) == 0 {
@@ -446,6 +502,28 @@ func main() {
 					doRead("read", m)
 				}
 			}
+		}
+	}
+	// crafted leaves: every field well-formed at the outer level, extensions / fingerprints blobs varied
+	for i := 0; i < n/10+5; i++ {
+		e := genLeaf(r, false)
+		e.Timestamp = r.Int63n(1 << 42)
+		e.LeafIndex = r.Int63n(1 << 40)
+		var fps []byte
+		for _, f := range e.ChainFingerprints {
+			fps = append(fps, f[:]...)
+		}
+		for _, ext := range extBlobs(r, e.LeafIndex) {
+			b := craftLeaf(e, ext, fps)
+			doRead("readarch", b)
+			doRead("read", b)
+			monDecEnc(b)
+			doPext(ext)
+		}
+		for _, cut := range []int{1, 31, 33} { // fingerprint blob not a multiple of 32
+			b := craftLeaf(e, extBlobs(r, e.LeafIndex)[0], append(append([]byte{}, fps...), randBytes(r, cut)...))
+			doRead("readarch", b)
+			monDecEnc(b)
 		}
 	}
 	// random bytes
